@@ -249,6 +249,9 @@ func c01Ref(s []byte, o int) c01Out {
 			tes = append(tes, f.value)
 		}
 	}
+	if len(cls) > 0 && len(tes) > 0 {
+		out.tag("cl+te-present")
+	}
 	// [3.2] Host
 	if hosts > 1 {
 		return reject("dup-host")
